@@ -66,6 +66,7 @@ func init() {
 		"fmt.Printf":  {effects: []string{"stdout"}, ghosts: ghostGroups["ghost_out"], fn: modelPrintf},
 		"fmt.Fprintln": {effects: []string{"stderr"}, fn: modelFprint},
 		"fmt.Fprint":   {effects: []string{"stderr"}, fn: modelFprint},
+		"fmt.Fprintf":  {effects: []string{"stderr"}, fn: modelFprint},
 	}
 }
 
@@ -321,8 +322,71 @@ func modelPrintf(fr *Frame, ci ssa.CallInstruction, c *ssa.CallCommon) []*Term {
 }
 
 // fmt.Fprint(ln)(w, ...): the writer decides the effect class.
+// builderWriter: the io.Writer argument of fmt.Fprint* is a *strings.Builder / *bytes.Buffer.
+func builderWriter(v ssa.Value) (ssa.Value, bool) {
+	if mi, ok := v.(*ssa.MakeInterface); ok {
+		if pt, ok := mi.X.Type().Underlying().(*types.Pointer); ok && isBuilderType(pt.Elem()) {
+			return mi.X, true
+		}
+	}
+	return nil, false
+}
+
 func modelFprint(fr *Frame, ci ssa.CallInstruction, c *ssa.CallCommon) []*Term {
+	name := c.StaticCallee().Name()
+	if b, ok := builderWriter(c.Args[0]); ok {
+		// writing into a builder is WriteString of the formatted text
+		var text *Term
+		switch name {
+		case "Fprintf":
+			args, known := fr.varargs(c.Args[2])
+			fr.fmtSlice = c.Args[2]
+			text = fr.format(c.Args[1], args, known)
+			fr.fmtSlice = nil
+		case "Fprintln":
+			args, known := fr.varargs(c.Args[1])
+			text = fr.sprintln(args, known)
+		default:
+			args, known := fr.varargs(c.Args[1])
+			allStr := known
+			for _, a := range args {
+				if mi, ok := a.(*ssa.MakeInterface); !ok || fr.enc.w.sortOf(mi.X.Type()) != "String" {
+					allStr = false
+				}
+			}
+			if allStr {
+				text = StrLit("")
+				for _, a := range args {
+					text = A("str.++", text, fr.val(a.(*ssa.MakeInterface).X))
+				}
+			} else {
+				text = fr.enc.declare("fprint", "String")
+			}
+		}
+		st := fr.cur
+		recv := fr.val(b)
+		fr.enc.oblige("safety:nil", fr.where(ci), "nil builder", nil, fr.curPC, Not(Eq(recv, IntLit(0))))
+		h := fr.bld(st)
+		text = fr.enc.define("fprint_text", "String", text)
+		st.Set("Bld", Store(h, recv, A("str.++", Select(h, recv), text)))
+		return []*Term{A("str.len", text), Leaf("any_nil")}
+	}
 	class := "any"
+	if name == "Fprintf" {
+		// only the effect is modelled for other writers
+		if mi, ok := c.Args[0].(*ssa.MakeInterface); ok {
+			if ld, ok := mi.X.(*ssa.UnOp); ok {
+				if g, ok := ld.X.(*ssa.Global); ok && g.Pkg.Pkg.Path() == "os" && g.Name() == "Stderr" {
+					class = "stderr"
+				}
+			}
+		}
+		if class == "any" {
+			fr.enc.unsup("fmt.Fprintf to a writer that is neither os.Stderr nor a strings.Builder / bytes.Buffer")
+		}
+		fr.bumpFx(class)
+		return []*Term{fr.enc.declare("n", "Int"), fr.enc.declare("werr", "Any")}
+	}
 	if mi, ok := c.Args[0].(*ssa.MakeInterface); ok {
 		if ld, ok := mi.X.(*ssa.UnOp); ok {
 			if g, ok := ld.X.(*ssa.Global); ok && g.Pkg.Pkg.Path() == "os" {
